@@ -1129,7 +1129,7 @@ theorem qbound_step {b b' : BState} {a : Act} {o o' : Oracle} (hd : QBound b) (h
   | worker =>
     have ht := workerAct_trans h
     have hle : b'.g.queue.length ≤ b.g.queue.length := by
-      cases ht <;> simp_all [finishCmd, rejectCmd, ttlPut, ttlDelete, applyEvict_queue']
+      cases ht <;> simp_all [finishCmd, rejectCmd, ttlPut, ttlDelete]
     omega
   | sweeper v =>
     simp only [stepB] at h
